@@ -3,6 +3,7 @@ package main
 import (
 	"bytes"
 	"context"
+	"encoding/json"
 	"fmt"
 	"os"
 	"os/exec"
@@ -125,6 +126,23 @@ func solveOne(o *Obligation, dir string, timeoutS int) *SolveResult {
 		}
 		return res
 	}
+	// a solver known to decide this obligation (recorded by an earlier run, solver_hints.json) goes first
+	if h := solverHints[o.Name]; h != "" && h != solvers[0].name {
+		for _, sp := range solvers {
+			if sp.name == h {
+				hv, hout, hsecs := runSolver(sp, 8, fname)
+				res.Attempts = append(res.Attempts, fmt.Sprintf("%s:%s:%.2fs", sp.name, hv, hsecs))
+				res.Seconds += hsecs
+				if decisive(hv) {
+					res.Verdict, res.Solver, res.Output = hv, sp.name, hout
+					if res.Verdict == "sat" && !o.Cover {
+						res.Model = parseGetValue(res.Output, o.inputs)
+					}
+					return res
+				}
+			}
+		}
+	}
 	v, out, secs := runSolver(solvers[0], first, fname)
 	res.Attempts = append(res.Attempts, fmt.Sprintf("%s:%s:%.2fs", solvers[0].name, v, secs))
 	res.Seconds += secs
@@ -239,4 +257,31 @@ func solveAll(obls []*Obligation, dir string, timeoutS, par int) []*SolveResult 
 	}
 	wg.Wait()
 	return out
+}
+
+// solverHints: obligation name -> the solver that decided it in an earlier run (committed file
+// solver_hints.json, written with GOVC_WRITE_HINTS=1). Only an ordering hint: a wrong or missing entry costs
+// time, never a verdict.
+var solverHints = map[string]string{}
+
+func loadSolverHints(root string) {
+	if b, err := os.ReadFile(filepath.Join(root, "solver_hints.json")); err == nil {
+		_ = json.Unmarshal(b, &solverHints)
+	}
+}
+
+func writeSolverHints(root string, obls []*Obligation, results []*SolveResult) {
+	loadSolverHints(root)
+	for i, r := range results {
+		if obls[i].Cover {
+			continue
+		}
+		if r.Verdict == "unsat" && r.Solver != solvers[0].name {
+			solverHints[obls[i].Name] = r.Solver
+		} else if r.Solver == solvers[0].name {
+			delete(solverHints, obls[i].Name)
+		}
+	}
+	b, _ := json.MarshalIndent(solverHints, "", " ")
+	_ = os.WriteFile(filepath.Join(root, "solver_hints.json"), b, 0644)
 }
